@@ -3,7 +3,8 @@ Correspondence: generated journals (several commodities, repeated payees / dates
 virtual postings, posting states) are reported by ledger's REPL with `reg --format` (exact
 amounts and running totals through the verif_rational hook) under --sort KEYS, --head/--tail N,
 --collapse, --subtotal, --by-payee, --dow, --depth N, alone and combined with --real /
---cleared / an account query and with each other, and by the extracted Coq model
+--cleared / an account query / a payee query and with each other (postings may name their own
+payee with a `; Payee:` tag: post_t::payee() is the key of --by-payee, --sort payee and @NAME), and by the extracted Coq model
 (Model/Regroup.v: the handler chain of chain.cc); rows are compared one by one.
 Oracle: python written from the property text, on ledger's own outputs only: the sorted
 register is a permutation of the plain one, ordered by the key, ties in input order;
@@ -21,20 +22,24 @@ META = dict(
     level_note='Trusted: Coq kernel; extraction + OCaml driver and the python harness for the correspondence; amount arithmetic is the C03 model (GMP as Q). std::stable_sort is modelled by its specification; the iteration order of collapse_posts\' totals map (keyed by account address) is unspecified, rows of one --depth group are compared as a set. Display hiding of zero rows is avoided by always passing --empty.',
     design_ref='DESIGN.md section 7 C17',
     assumptions=['commodities are unannotated symbols (no lot prices/dates), no posting-level dates, no automated or periodic transactions',
-                 'payees contain no % (by_payee_posts passes the payee to strftime) and no | ; account queries are literal substrings',
+                 'payees contain no % (by_payee_posts passes the payee to strftime) and no | ; account and payee (@NAME) queries are literal substrings',
+                 '10-30% of the postings of most journals name their own payee (`; Payee: NAME` on the posting line or the line after, occasionally on the transaction); the model is fed post_t::payee() per posting and the transaction payee separately; the oracle takes each posting\'s payee from the plain register\'s own %(payee)',
                  'the register is run with --empty so that every posting or group is a row',
                  'subtotal/by-payee/dow are not fed compound (multi-commodity) postings produced by another regrouping handler',
                  'negative --head/--tail counts are modelled as coded but are outside the property\'s quantifier (oracle silent)'],
 )
 
 EPOCH = datetime.date(1970, 1, 1).toordinal()
-FMT = "%(xact.beg_line)|%(date)|%(payee)|%(account)|%(virtual)|%(verif_rational(amount))|%(verif_rational(total))\\n"
+FMT = "%(xact.beg_line)|%(date)|%(payee)|%(xact.payee)|%(account)|%(virtual)|%(verif_rational(amount))|%(verif_rational(total))\\n"
 ACCOUNTS = ['Expenses:Food', 'Expenses:Food:Fruit', 'Expenses:Drink', 'Expenses:Books', 'Assets:Cash',
             'Assets:Bank:Checking', 'Assets:Bank:Savings', 'Liabilities:Card', 'Income:Salary', 'Equity',
             'assets:petty', 'Expenses:Food-2', 'Expenses']
 VIRT_ACCOUNTS = ['Virt:Budget', 'Virt:Plan:Year', 'Budget']
 BALANCERS = ['Assets:Cash', 'Assets:Bank:Checking', 'Liabilities:Card', 'Equity', 'Assets:Bank:Savings']
 PAYEES = ['Shop', 'Cafe', 'shop', 'Book Store', 'Zed', 'Acme-1', 'Cafe 2', 'ACME', 'a']
+# payees named by a posting only (`; Payee: NAME` on the posting): post_t::payee() honours them
+POST_PAYEES = ['Railways', 'Airport Taxi', 'Kiosk', 'Zed Ltd', 'Station Cafe', 'B']
+PAYEE_PATTERNS = ['Cafe', 'Shop', 'Rail', 'Taxi', 'Zed', 'Kiosk', 'Book', 'Acme', 'Station', 'xyz', 'o']
 SYMS = [('$', 'pre'), ('EUR', 'suf'), ('AAA', 'suf'), ('CAD', 'suf'), ('B', 'suf')]
 PATTERNS = ['Expenses', 'Food', 'Assets', 'Cash', 'ood', 'xyz', 'Bank', 'Budget', 'Equity', 'Checking']
 DOW_NAMES = ['Sundays', 'Mondays', 'Tuesdays', 'Wednesdays', 'Thursdays', 'Fridays', 'Saturdays']
@@ -59,7 +64,8 @@ def amt_text(n, dec, sym):
 
 
 def gen_journal(rng, profile):
-    """-> list of transactions dict(date, state, payee, posts=[dict(acct, virt, mark, n, dec, sym)])"""
+    """-> list of transactions dict(date, state, payee, xtag, posts=[dict(acct, virt, mark, n, dec, sym, ppayee, pstyle)])
+    ppayee: the posting's own `; Payee:` tag (None = none); xtag: the same tag on the transaction."""
     nx = rng.choice([0, 1, 2, 3, 3, 4, 5, 6, 8]) if profile != 'big' else rng.randrange(8, 16)
     nsym = rng.choice([1, 2, 2, 3, 4])
     syms = rng.sample(SYMS, nsym)
@@ -67,6 +73,10 @@ def gen_journal(rng, profile):
     payees = rng.sample(PAYEES, rng.choice([1, 2, 3, 5]))
     base = datetime.date(2020, rng.randrange(1, 13), rng.randrange(1, 20))
     span = rng.choice([1, 3, 8, 40])
+    # 10-30% of the postings name their own payee (a fresh name, another transaction's payee,
+    # or their own transaction's payee again); a few journals have none
+    tag_rate = rng.choice([0.0, 0.1, 0.2, 0.2, 0.3, 0.3])
+    fresh = rng.sample(POST_PAYEES, rng.choice([1, 2, 3]))
     xs = []
     for _ in range(nx):
         d = base + datetime.timedelta(days=rng.randrange(span))
@@ -107,7 +117,15 @@ def gen_journal(rng, profile):
             if n != 0:
                 posts.append(dict(acct=rng.choice(BALANCERS), virt='', mark=rng.choice([None] * 9 + [1]), n=-n, dec=dd, sym=k))
         rng.shuffle(posts) if rng.random() < 0.5 else None
-        xs.append(dict(date=d, state=rng.choice([0, 0, 1, 1, 2]), payee=rng.choice(payees), posts=posts))
+        payee = rng.choice(payees)
+        for p in posts:
+            p['ppayee'], p['pstyle'] = None, 'inline'
+            if rng.random() < tag_rate:
+                k = rng.randrange(4)
+                p['ppayee'] = rng.choice(fresh) if k < 2 else (rng.choice(payees) if k == 2 else payee)
+                p['pstyle'] = rng.choice(['inline', 'inline', 'next'])
+        xtag = rng.choice(fresh + payees) if tag_rate and rng.random() < 0.06 else None
+        xs.append(dict(date=d, state=rng.choice([0, 0, 1, 1, 2]), payee=payee, xtag=xtag, posts=posts))
     return xs
 
 
@@ -118,6 +136,8 @@ def render_journal(xs):
         where[len(lines) + 1] = i
         st = {0: '', 1: ' *', 2: ' !'}[x['state']]
         lines.append('%s%s %s' % (x['date'].strftime('%Y/%m/%d'), st, x['payee']))
+        if x.get('xtag'):
+            lines.append('    ; Payee: %s' % x['xtag'])
         for p in x['posts']:
             a = p['acct']
             if p['virt'] == '()':
@@ -125,9 +145,24 @@ def render_journal(xs):
             elif p['virt'] == '[]':
                 a = '[' + a + ']'
             mk = {None: '', 1: '* ', 2: '! '}[p['mark']]
-            lines.append('    %s%s    %s' % (mk, a, amt_text(p['n'], p['dec'], p['sym'])))
+            l = '    %s%s    %s' % (mk, a, amt_text(p['n'], p['dec'], p['sym']))
+            if p.get('ppayee') and p['pstyle'] == 'inline':
+                l += '  ; Payee: %s' % p['ppayee']
+            lines.append(l)
+            if p.get('ppayee') and p['pstyle'] == 'next':
+                lines.append('    ; Payee: %s' % p['ppayee'])
         lines.append('')
     return '\n'.join(lines) + '\n', where
+
+
+def post_payee(x, p):
+    """post_t::payee() as the register's %(payee) shows it: the posting's own `; Payee:` tag, else the
+    transaction's tag, else the transaction's payee.  One wrinkle of textual.cc:1823-1825: the payee is
+    fixed when the posting LINE has been read, so a tag on the line after the posting loses against a
+    transaction-level tag (it still wins against the plain transaction payee)."""
+    if p.get('ppayee') and p.get('pstyle') == 'inline':
+        return p['ppayee']
+    return x.get('xtag') or p.get('ppayee') or x['payee']
 
 
 def posts_sx(xs):
@@ -136,7 +171,7 @@ def posts_sx(xs):
         for p in x['posts']:
             st = p['mark'] if p['mark'] is not None else x['state']
             q = F(p['n'], 10 ** p['dec'])
-            out.append([3 * i, x['date'].toordinal() - EPOCH, x['payee'].encode(), p['acct'].encode(),
+            out.append([3 * i, x['date'].toordinal() - EPOCH, post_payee(x, p).encode(), x['payee'].encode(), p['acct'].encode(),
                         bool(p['virt']), st, q.numerator, q.denominator, p['dec'],
                         p['sym'][0].encode() if p['sym'] else b''])
     return out
@@ -144,8 +179,9 @@ def posts_sx(xs):
 
 # ----------------------------------------------------------------------------------- options
 class Opt:
-    def __init__(self, real=False, state=0, query=None, grp='none', coll=None, sort=None, head=None, tail=None):
+    def __init__(self, real=False, state=0, query=None, grp='none', coll=None, sort=None, head=None, tail=None, pquery=None):
         self.real, self.state, self.query, self.grp, self.coll = real, state, query, grp, coll
+        self.pquery = pquery
         self.sort, self.head, self.tail = sort, head, tail
 
     def but(self, **kw):
@@ -171,6 +207,8 @@ class Opt:
             a += ['--tail', str(self.tail)]
         if self.query:
             a.append(self.query)
+        if self.pquery:
+            a.append('@' + self.pquery)
         return a
 
     def text(self):
@@ -180,7 +218,8 @@ class Opt:
         srt = '-'
         if self.sort:
             srt = [[k.startswith('-'), k.lstrip('-')] for k in self.sort.split(',')]
-        return ['opts', self.real, self.state, self.query.encode() if self.query else '-', self.grp,
+        return ['opts', self.real, self.state, self.query.encode() if self.query else '-',
+                self.pquery.encode() if self.pquery else '-', self.grp,
                 self.coll if self.coll is not None else '-', srt,
                 self.head if self.head is not None else '-', self.tail if self.tail is not None else '-']
 
@@ -190,7 +229,7 @@ class Opt:
 
 # ------------------------------------------------------------------------- reading ledger rows
 class Row:
-    __slots__ = ('line', 'days', 'payee', 'acct', 'virt', 'amt', 'tot')
+    __slots__ = ('line', 'days', 'payee', 'xpayee', 'acct', 'virt', 'amt', 'tot')
 
     def ident(self):
         return (self.line, self.days, self.payee, self.acct, self.amt)
@@ -212,13 +251,13 @@ def parse_block(block):
         if not l:
             continue
         f = l.split('|')
-        if len(f) != 7:
+        if len(f) != 8:
             return 'ERR:unreadable'
         r = Row()
         r.line = int(f[0])
         y, m, d = f[1].split('/')
         r.days = datetime.date(int(y), int(m), int(d)).toordinal() - EPOCH
-        r.payee, r.acct, r.virt, r.amt, r.tot = f[2], f[3], f[4] == 'true', f[5], f[6]
+        r.payee, r.xpayee, r.acct, r.virt, r.amt, r.tot = f[2], f[3], f[4], f[5] == 'true', f[6], f[7]
         rows.append(r)
     return rows
 
@@ -456,6 +495,18 @@ def oracle_window(o, Q, R):
     return []
 
 
+def oracle_payee_query(o, P, R):
+    """`reg @PATTERN` against the register without it: exactly the rows whose %(payee) matches"""
+    if isinstance(R, str):
+        return [('payee-query:error', 'reg %s fails' % o.text(), R, 'the rows of the matching payees')]
+    want = [r.ident() for r in P if o.pquery.lower() in r.payee.lower()]
+    got = [r.ident() for r in R]
+    if want != got or not totals_are_prefix_sums(R):
+        return [('payee-query:rows', 'reg %s does not select exactly the postings whose register payee matches' % o.text(),
+                 got[:8], want[:8])]
+    return []
+
+
 def cut_account(a, n):
     return ':'.join(a.split(':')[:n])
 
@@ -483,15 +534,18 @@ def oracle_regroup(o, P, R):
                 runs.append([r])
         for g in runs:
             d = min(r.days for r in g)
+            # the row of a merged transaction carries the transaction's payee; a transaction of
+            # one posting is shown as that posting (with the posting's payee)
+            xp = g[0].xpayee
             if o.coll == 0:
-                exp.append([(d, g[0].payee, None, vsum(g))])
+                exp.append([(d, g[0].payee if len(g) == 1 else xp, None, vsum(g))])
             else:
                 accts = []
                 for r in g:
                     c = cut_account(r.acct, o.coll)
                     if c not in accts:
                         accts.append(c)
-                exp.append(sorted(((d, g[0].payee, c, vsum([r for r in g if cut_account(r.acct, o.coll) == c])) for c in accts),
+                exp.append(sorted(((d, xp, c, vsum([r for r in g if cut_account(r.acct, o.coll) == c])) for c in accts),
                                   key=lambda t: t[2]))
     else:
         if o.grp == 'sub':
@@ -538,7 +592,11 @@ def judge(o, outs):
     """evaluate the property on ledger's outputs for option set o -> (reference rows, findings)"""
     R = outs[o.text()]
     found, ref = [], None
-    if o.head is not None or o.tail is not None:
+    if o.pquery and not o.sort and not o.regroups() and o.head is None and o.tail is None:
+        ref = outs.get(o.but(pquery=None).text())
+        if ref is not None and not isinstance(ref, str):
+            found = oracle_payee_query(o, ref, R)
+    elif o.head is not None or o.tail is not None:
         ref = outs.get(o.but(head=None, tail=None).text())
         if ref is not None:
             found = oracle_window(o, ref, R)
@@ -560,7 +618,7 @@ def pick_filters(rng, xs):
     accts = {p['acct'] for x in xs for p in x['posts']}
     fs = [Opt()]
     for _ in range(2):
-        k = rng.randrange(5)
+        k = rng.randrange(4)
         if k == 0:
             fs.append(Opt(real=True))
         elif k == 1:
@@ -571,6 +629,12 @@ def pick_filters(rng, xs):
                 fs.append(Opt(query=pat, real=rng.random() < 0.2))
         elif k == 3:
             fs.append(Opt(real=True, state=1))
+    eff = {post_payee(x, p) for x in xs for p in x['posts']}
+    if rng.random() < 0.5:
+        for pat in rng.sample(PAYEE_PATTERNS, len(PAYEE_PATTERNS)):
+            if all((pat in e) == (pat.lower() in e.lower()) for e in eff):
+                fs.append(Opt(pquery=pat))
+                break
     return fs[:1] + rng.sample(fs[1:], min(len(fs) - 1, 1 if rng.random() < 0.6 else 2))
 
 
@@ -609,10 +673,10 @@ def run(ctx, n_override=None, oracle_only=False):
     rng = ctx.rng
     res = lib.Result()
     res.rule = ('generated journals (0-15 transactions of 1-6 postings, 1-4 commodities, repeated payees/dates/amounts, '
-                'virtual postings, posting states; an "odd" profile adds zero amounts, amounts without commodity and accounts '
+                'virtual postings, posting states, 10-30% of the postings naming their own payee; an "odd" profile adds zero amounts, amounts without commodity and accounts '
                 'used both virtually and really) x option sets (--sort over 17 key lists, --head/--tail N for N in 0..count+2 '
                 'and negative, --collapse/--subtotal/--by-payee/--dow/--depth 1-3, alone, with --real/--cleared/--pending/'
-                'an account query, and combined in chain order); a case is non-trivial when the option changes the rows of '
+                'an account query/a payee query, and combined in chain order); a case is non-trivial when the option changes the rows of '
                 'the reference register, or N lies strictly inside 0..count; distinct by journal text + option text')
     nj = n_override or ctx.scale(150, 1200)
     thorough = ctx.tier == 'thorough'
@@ -646,7 +710,7 @@ def run(ctx, n_override=None, oracle_only=False):
             kind = ('sort' if o.sort else '') + ('+window' if (o.head is not None or o.tail is not None) else '') + \
                    ('+' + (o.grp if o.grp != 'none' else '') + ('collapse' if o.coll == 0 else ('depth' if o.coll else '')) if o.regroups() else '')
             res.count('option:' + (kind.strip('+') or 'plain'))
-            res.count('filter:' + ((('real' if o.real else '') + ('state%d' % o.state if o.state else '') + ('query' if o.query else '')) or 'none'))
+            res.count('filter:' + ((('real' if o.real else '') + ('state%d' % o.state if o.state else '') + ('query' if o.query else '') + ('payee-query' if o.pquery else '')) or 'none'))
             ref, found = judge(o, outs)
             if ref is not None and not isinstance(ref, str) and not isinstance(R, str):
                 nrun = len({r.line for r in ref})
@@ -693,7 +757,7 @@ def replay(ctx, obj):
         path = ctx.path('replay.dat')
         open(path, 'w').write(case['journal'])
         o = Opt(**case['opt'])
-        todo = [o, o.but(head=None, tail=None), o.but(sort=None), o.but(grp='none', coll=None)]
+        todo = [o, o.but(head=None, tail=None), o.but(sort=None), o.but(grp='none', coll=None), o.but(pquery=None)]
         outs = {}
         for x in todo:
             if x.text() not in outs:
